@@ -1,6 +1,7 @@
 SPECIFICATION Spec
 CONSTANTS
  Alphabet = {0, 97}
+ MinLen = 0
  MaxLen = 2
  CFs = {0}
  Vers = {1, 1000000}
